@@ -216,7 +216,7 @@ def run(pid, tier, seed, workers=None, max_cases=None):
     for sig, (e, fs) in sorted(known_hit.items()):
         lines.append(f'KNOWN-FINDING: property={pid} {e["what"]} [signature={sig}; {len(fs)} case(s) this run]')
 
-    replay_dir = os.path.join(VERIF, 'replays', pid)
+    replay_dir = os.path.join(os.environ.get('VERIF_REPLAY_DIR') or os.path.join(VERIF, 'replays'), pid)
     verified = 0
     for sig, fs in sorted(new.items()):
         os.makedirs(replay_dir, exist_ok=True)
@@ -270,8 +270,9 @@ def run(pid, tier, seed, workers=None, max_cases=None):
     ev = dict(property_id=pid, tier=tier, seed=seed, level='model_checking', coverage=cov,
               assumptions=list(getattr(check, 'ASSUMPTIONS', [])), wall_s=round(wall, 3),
               violations=len(new))
-    os.makedirs(os.path.join(VERIF, 'evidence'), exist_ok=True)
-    with open(os.path.join(VERIF, 'evidence', pid + '.json'), 'w') as fh:
+    ev_dir = os.environ.get('VERIF_EVIDENCE_DIR') or os.path.join(VERIF, 'evidence')
+    os.makedirs(ev_dir, exist_ok=True)
+    with open(os.path.join(ev_dir, pid + '.json'), 'w') as fh:
         json.dump(ev, fh, indent=1, default=repr)
         fh.write('\n')
 
